@@ -98,10 +98,14 @@ class UntypedAtomic(AnyAtomicType):
             case None | str() | list():
                 return op(self.value, other)
             case AnyAtomicType():
-                if hasattr(other, 'make'):
-                    return op(type(other).make(self.value, parser=self.parser), other)
-                else:
-                    return op(type(other)(self.value), other)
+                try:
+                    if hasattr(other, 'make'):
+                        return op(type(other).make(self.value, parser=self.parser), other)
+                    else:
+                        return op(type(other)(self.value), other)
+                except ArithmeticError as err:
+                    # e.g. decimal.InvalidOperation for a non-numeric string cast to xs:decimal
+                    raise ValueError(f"{self.value!r} cannot be cast to {type(other)!r}: {err}")
             case _:
                 return cast(bool, NotImplemented)
 
